@@ -98,3 +98,10 @@ Theorem C12_stream_roundtrip_raw :
   mlfd td' = mlfd ts /\ mhp td' = mhp ts /\ tsize td' = tsize ts /\ rc td' = wrap64 (rc td + 1).
 Proof. exact stream_roundtrip_raw. Qed.
 Print Assumptions C12_stream_roundtrip_raw.
+
+(* ---- order of effects of the extraction (Effects.v) ---- *)
+From LC Require Import gen.EffectOrder Effects.
+Theorem C12_extraction_order_consistent :
+  consistent_order stream_in_effects = true.
+Proof. exact stream_in_order_consistent. Qed.
+Print Assumptions C12_extraction_order_consistent.
